@@ -19,14 +19,14 @@ def scenarios(tier):
     q = tier == "quick"
     mon = ("c03",)
     out = [
-        Scenario("c03-abs-mm", World, dict(prop="C03", monitors=mon, regions=["R"], emax=1),
+        Scenario("c03-abs-mm", World, dict(prop="C03", monitors=mon, regions=["R"], emax=1, enter="M300 S1\n"),
                  [m for m in MOVES if not q or m not in (("TRAVELZ", "I2", 1), ("TRAVEL", "O1"))]
-                 + [("RETRACT",), ("RECOVER",), ("AT", "ExcludeRegion", "disable")] + ([] if q else [("ESET0",)]),
-                 max_states=100000 if q else 1000000),
+                 + [("RETRACT",), ("RECOVER",), ("AT", "ExcludeRegion", "disable"), ("SET", "save", None)] + ([] if q else [("ESET0",)]),
+                 max_states=100000 if q else 1000000, note="an enter script is configured (the entering move yields commands)"),
         Scenario("c03-rel-mm", World, dict(prop="C03", monitors=mon, regions=["R"], emax=1, guard=no_relative_disable, repeat_modes=True),
-                 MOVES + [("REL",), ("ABS",), ("WIPE", "O2"), ("WIPE", "O1"), ("RECOVER",), ("AT", "ExcludeRegion", "disable")],
+                 MOVES + [("REL",), ("ABS",), ("WIPE", "O2"), ("WIPE", "O1"), ("WIPE", "I1"), ("RECOVER",), ("AT", "ExcludeRegion", "disable")],
                  max_depth=6 if q else 9, max_states=3000000),
-        Scenario("c03-inch", World, dict(prop="C03", monitors=mon, regions=["R"], emax=1),
+        Scenario("c03-inch", World, dict(prop="C03", monitors=mon, regions=["R"], emax=1, enter="M300 S1\n"),
                  [("TRAVEL", "O2"), ("TRAVEL", "I1"), ("TRAVEL", "H"), ("PRINT", "I2"), ("PRINT", "O1"),
                   ("TRAVELZ", "I1", 2), ("ZMOVE", 2), ("ZMOVE", 1), ("INCH",), ("MM",), ("REL",), ("ABS",)],
                  max_depth=6 if q else 8, max_states=3000000),
